@@ -325,6 +325,20 @@ def h03e_pre(e1, e2, e3, ttl):
     return 0 <= ttl <= 2**31 - 1
 
 
+def h03c(a0: int, a1: int, b0: int, b1: int, c0: int, pad: int, shared: bool) -> bool:
+    """Names written through one compression table around offset 0x3FFF (as in a message larger than 16 KiB): no table entry and no
+    pointer beyond 0x3FFF, every name decodes back (C01.h01d, DNS-equal comparison)."""
+    import harness.C01 as C01
+
+    return C01.h01d(a0, a1, b0, b1, c0, pad, shared)
+
+
+def h03c_pre(a0, a1, b0, b1, c0, pad, shared):
+    import harness.C01 as C01
+
+    return C01.h01d_pre(a0, a1, b0, b1, c0, pad, shared)
+
+
 def h03f(max_size: int, l0: int, l1: int) -> bool:
     """After a record set was rolled back for size, every pointer emitted later still targets an earlier occurrence of exactly that suffix (independent walker)."""
     import harness.C08 as C08
@@ -359,6 +373,10 @@ HARNESSES = [
                      "dns.rdataset.Rdataset.to_wire"],
             bound="zone class IN (and CH with TXT records); 1 symbolic update operation (10 kinds x 3 names x 4 records), and 2 operations with the first from {add, delete rdata, present rdata} (thorough: all); TTL symbolic",
             stubs=["E1", "E5", "E6", "E8"], outside="longer update scripts"),
+    Harness("H03c", h03c, h03c_pre, lambda tier: [{"names": n, "pad": (0x3FF6, 0x4001), "strict": False, "_timeout": 400, "_path_timeout": 60} for n in ((2,) if tier == "quick" else (2, 3))],
+            kind="universal", encodes=["dns.name.Name.to_wire", "dns.name.from_wire_parser"],
+            bound="2 (3) names of two one-octet symbolic labels over a shared or private suffix written at start offsets 0x3FF6..0x4001 (every suffix position crosses 0x3FFF)",
+            stubs=["E1", "E6"], outside="whole 16 KiB messages (the renderer uses this very routine for every name)"),
     Harness("H03f", h03f, h03f_pre, lambda tier: [{"_timeout": 900, "_path_timeout": 60}], kind="universal",
             encodes=["dns.renderer.Renderer._rollback", "dns.renderer.Renderer._track_size", "dns.name.Name.to_wire"],
             bound="Renderer: question, a 400-octet rrset that may overflow, then a small rrset of the same owner whose rdata name ends in it; max_size symbolic 30..600, two symbolic owner labels",
